@@ -73,6 +73,11 @@ func (w *vWorld) vStep() (*DialogueElement, error, vSpecOutcome) {
 		vAssert(vSameStatements(vFlatten(dr), spec.K), "continuation while a command is pending")
 	case spec.end:
 		vReach("end")
+		if spec.stopped {
+			vReach("end-by-stop")
+		} else if w.waiting != nil {
+			vReach("end-after-choice")
+		}
 		vAssert(el == nil && err == nil, "the end of the dialogue is (nil, nil)")
 	default:
 		vAssert(err == nil, "no error when the reference yields")
